@@ -5,6 +5,7 @@
     (instance obligations, vm_compute).  The FGD grammar itself is not modelled (search only). *)
 From Coq Require Import List NArith Arith Bool String.
 From SV Require Import Fmt.LongString Fmt.LongStringProofs Fmt.FgdBin Fmt.FgdBinProofs SM.LazyDb SM.LazyDbProofs.
+From SV Require Import Fmt.FgdBinEnt Fmt.FgdBinEntProofs.
 From SV Require Import Gen.FgdConsts_gen.
 Import ListNotations.
 Open Scope N_scope.
@@ -133,6 +134,87 @@ Proof. exact le16_roundtrip. Qed.
 Theorem c16_split_join : forall sep l, l <> [] -> Forall (fun x => mem_N sep x = false) l ->
   split_sep sep (join_sep sep l) = l.
 Proof. exact split_join. Qed.
+
+(** * Binary database: whole definitions and blocks *)
+(** ent_serialise / ent_unserialise (Fmt/FgdBinEnt.v: header of six bytes, base names, keyvalues with spawnflag lists,
+    inputs, outputs, resources with tags) composed from the codecs above.  [enc]/[dec] is the string dictionary;
+    the side conditions on the tables are the instance obligations value_type_order_covers_enum,
+    file_type_order_covers_enum, entflags_layout, entity_types_have_distinct_flags.  For every definition the writer
+    accepts ([Some bs]) whose spawnflag masks are powers of two, whose SPAWNFLAGS keyvalues have no default and whose
+    other keyvalues have no flag list, the reader returns the definition and exactly the bytes that followed. *)
+Theorem c16_ent_bin_roundtrip : forall (A : Type) (enc : A -> option (N * N)) (dec : N * N -> option A),
+  (forall s p, enc s = Some p -> dec p = Some s) ->
+  forall (empty : A) (vt_order ft_order : list string),
+  (List.length vt_order < 128)%nat -> (List.length ft_order < 128)%nat ->
+  forall (list_type choices_type : string) (kinds : list (string * N)) (mask alias_bit : N),
+  entflags_ok (map snd kinds) mask alias_bit = true -> nodup_N (map snd kinds) = true -> nodup_str (map fst kinds) = true ->
+  forall e bs rest, ent_wf A empty list_type e ->
+  ent_ser A enc vt_order ft_order list_type choices_type kinds alias_bit e = Some bs ->
+  ent_unser A dec empty vt_order ft_order list_type kinds mask alias_bit (bs ++ rest) = Some (e, rest).
+Proof. exact ent_roundtrip. Qed.
+
+(** all definitions of a block, read back in the order of the block's class names, nothing left over *)
+Theorem c16_block_bin_roundtrip : forall (A : Type) (enc : A -> option (N * N)) (dec : N * N -> option A),
+  (forall s p, enc s = Some p -> dec p = Some s) ->
+  forall (empty : A) (vt_order ft_order : list string),
+  (List.length vt_order < 128)%nat -> (List.length ft_order < 128)%nat ->
+  forall (list_type choices_type : string) (kinds : list (string * N)) (mask alias_bit : N),
+  entflags_ok (map snd kinds) mask alias_bit = true -> nodup_N (map snd kinds) = true -> nodup_str (map fst kinds) = true ->
+  forall es bs rest, Forall (ent_wf A empty list_type) es ->
+  block_ser A enc vt_order ft_order list_type choices_type kinds alias_bit es = Some bs ->
+  block_unser A dec empty vt_order ft_order list_type kinds mask alias_bit (List.length es) (bs ++ rest) = Some (es, rest).
+Proof. exact block_roundtrip. Qed.
+
+(** the dictionary premise holds for BinStrDict: shared dictionary of exactly SHARED_STRINGS entries + the block's own
+    strings, indexes written as 16-bit little-endian (composition of c16_strdict_roundtrip and c16_le16_roundtrip) *)
+Theorem c16_block_dictionary_inverts : forall (A : Type) (eqb : A -> A -> bool), (forall a b, eqb a b = true <-> a = b) ->
+  forall base own shared, List.length base = shared ->
+  forall s p, dict_enc A eqb base own shared s = Some p -> dict_dec A base own p = Some s.
+Proof. exact dict_enc_dec. Qed.
+
+(** the generated tables satisfy the premises of c16_ent_bin_roundtrip *)
+Definition bin_tables_ok : bool :=
+  (List.length value_type_order <? 128)%nat && (List.length file_type_order <? 128)%nat
+  && entflags_layout_ok && nodup_N (map snd type_flags) && nodup_str (map fst type_flags)
+  && mem_str bin_list_type value_type_order && mem_str bin_choices_type value_type_order
+  && negb (String.eqb bin_list_type bin_choices_type).
+
+(** the I/O skeletons of the eight (un)serialisers, as the model of Fmt/FgdBinEnt.v has them: kv = name, display name,
+    type|readonly byte, then for the list type a count and (power|default byte, name) per flag, otherwise the default;
+    io = name, type byte; ent = six header bytes (flags, then the counts of bases, keyvalues, inputs, outputs,
+    resources), the base names, the keyvalues, inputs, outputs, and per resource the type|has-tags byte, the tags if
+    flagged, the file name *)
+Fixpoint slist_eqb (a b : list string) : bool :=
+  match a, b with [], [] => true | x :: a', y :: b' => String.eqb x y && slist_eqb a' b' | _, _ => false end.
+Definition layout_is (fn : string) (expected : list string) : bool :=
+  match find (fun p => String.eqb (fst p) fn) bin_layouts with Some p => slist_eqb (snd p) expected | None => false end.
+Definition layout_kv_writer_ok : bool := layout_is "kv_serialise"
+  ["str"; "str"; "u8"; "if(_.type is ValueTypes.SPAWNFLAGS){"; "u8"; "loop(_.flags_list){"; "if(_){"; "raise"; "}"; "u8"; "str"; "}";
+   "return"; "}"; "str"; "if(_.type is ValueTypes.CHOICES){"; "raise"; "}"].
+Definition layout_kv_reader_ok : bool := layout_is "kv_unserialise"
+  ["str"; "str"; "u8"; "if(_ is ValueTypes.SPAWNFLAGS){"; "u8"; "loop(range(r3)){"; "u8"; "str"; "}"; "}else{"; "str"; "}"].
+Definition layout_io_ok : bool := layout_is "iodef_serialise" ["str"; "u8"] && layout_is "iodef_unserialise" ["str"; "u8"].
+Definition layout_ent_writer_ok : bool := layout_is "ent_serialise"
+  ["hdr:_.value,len(_.bases),len(_.keyvalues),len(_.inputs),len(_.outputs),len(_.resources)";
+   "loop(_.bases){"; "if(isinstance(_, str)){"; "str"; "}else{"; "str"; "}"; "}";
+   "loop(_._iter_attrs()){"; "loop(_.items()){"; "if(len(_) == 1){"; "if(not _){"; "if(isinstance(_, KVDef)){"; "kv"; "}else{";
+   "if(isinstance(_, IODef)){"; "io"; "}else{"; "raise"; "}"; "}"; "}"; "}"; "raise"; "}"; "}";
+   "loop(_.resources){"; "if(_.tags){"; "u8"; "tags"; "}else{"; "u8"; "}"; "str"; "}"].
+Definition layout_ent_reader_ok : bool := layout_is "ent_unserialise"
+  ["hdr6"; "loop(h1){"; "str"; "}"; "loop(h2){"; "kv"; "}"; "loop(h3){"; "io"; "}"; "loop(h4){"; "io"; "}";
+   "if(h5){"; "loop(h5){"; "u8"; "if(r1 & 128){"; "tags"; "}"; "str"; "}"; "}"].
+Definition header_formats_ok : bool :=
+  struct_is "_fmt_header" "<BI" && struct_is "_fmt_block_pos" "<IH" && struct_is "_fmt_32bit" "<I".
+
+(** the model instantiated with the generated tables, strings numbered (see [encN]/[decN]) *)
+Definition g_ent_ser : entdef N -> option (list N) :=
+  ent_ser N encN value_type_order file_type_order bin_list_type bin_choices_type type_flags (flag_value "IS_ALIAS").
+Definition g_ent_unser (canon : list N) (empty : N) : reader (entdef N) :=
+  ent_unser N (decN canon) empty value_type_order file_type_order bin_list_type type_flags (flag_value "MASK_TYPE") (flag_value "IS_ALIAS").
+Definition g_block_ser : list (entdef N) -> option (list N) :=
+  block_ser N encN value_type_order file_type_order bin_list_type bin_choices_type type_flags (flag_value "IS_ALIAS").
+Definition g_block_unser (canon : list N) (empty : N) (n : nat) : reader (list (entdef N)) :=
+  block_unser N (decN canon) empty value_type_order file_type_order bin_list_type type_flags (flag_value "MASK_TYPE") (flag_value "IS_ALIAS") n.
 
 (** * Lazy loading *)
 (** [via] = how _parse_block replaces the stored base names ([lazy_via_get_ent] read from the source).
